@@ -266,7 +266,8 @@ func buildWorld(ctx *Ctx, sc *Scenario) *World {
 		// while the file "setfail" exists the set command fails without touching the device
 		cmdScript(filepath.Join(dir, "set.sh"), "if [ -e "+dir+"/setfail ]; then exit 1; fi; echo \"$1\" > "+dir+"/pwm; echo \"$1\" >> "+dir+"/writes")
 		// while the file "garble" exists the tool answers with a message instead of the value (exit status 0)
-		cmdScript(filepath.Join(dir, "get.sh"), "if [ -e "+dir+"/garble ]; then echo 'device busy'; else cat "+dir+"/pwm; fi")
+		// while the file "flaky" exists every second query is answered that way (a rate-limited embedded controller)
+		cmdScript(filepath.Join(dir, "get.sh"), "if [ -e "+dir+"/flaky ]; then n=$(cat "+dir+"/flaky); n=$((n+1)); echo $n > "+dir+"/flaky; if [ $((n%2)) = 0 ]; then echo 'device busy'; exit 0; fi; fi; if [ -e "+dir+"/garble ]; then echo 'device busy'; else cat "+dir+"/pwm; fi")
 		cmdScript(filepath.Join(dir, "rpm.sh"), "p=$(cat "+dir+"/pwm); t=$(cat "+dir+"/theta); if [ \"$p\" -lt \"$t\" ]; then echo 0; else echo $((200+p*"+strconv.Itoa(sc.Plant.MaxRpm)+"/255)); fi")
 		cfg := configuration.FanConfig{ID: id, Curve: w.Curve.Id, NeverStop: sc.Fan.NeverStop,
 			Cmd: &configuration.CmdFanConfig{
